@@ -58,7 +58,7 @@ pub fn sched_strategy() -> proptest::strategy::BoxedStrategy<Sched> {
         2 => Just(Sched::Full),
         2 => Just(Sched::Fixed(1)),
         2 => (2usize..40).prop_map(Sched::Fixed),
-        1 => prop_oneof![Just(4095usize), Just(4096), Just(4097), Just(8191), Just(8192), Just(8193), Just(1000)].prop_map(Sched::Fixed),
+        1 => prop_oneof![Just(4095usize), Just(4096), Just(4097), Just(8191), Just(8192), Just(8193), Just(1000), Just(16383), Just(16384), Just(16385), Just(65536)].prop_map(Sched::Fixed),
         3 => proptest::collection::vec(1usize..24, 1..12).prop_map(Sched::Sizes),
         1 => proptest::collection::vec(1usize..9000, 1..6).prop_map(Sched::Sizes),
         2 => proptest::collection::vec(0usize..4096, 0..8).prop_map(|mut v| { v.sort(); v.dedup(); Sched::Cuts(v) }),
